@@ -26,6 +26,7 @@ Step(e) ==
     CASE e.ev = "Shape"    -> ChooseShape(e.nr, e.np, e.nk, e.crow, e.scale)
       [] e.ev = "SetEntry" -> SetEntry(e.k, e.j, e.v)
       [] e.ev = "Classify" -> Classify
+      [] e.ev = "Unclassified" -> Unclassified
       [] e.ev = "Witness"  -> Witness(e.x)
       [] e.ev = "Dupl"     -> ChooseDupl(PairSet(e.pairs))
       [] e.ev = "Mode"     -> ChooseMode(e.m)
